@@ -141,19 +141,17 @@ theorem setXX_upto_option_order_partial (k v : String) (e : Int) :
 /-- the option order really differs: witness -/
 theorem setNX_order_differs : (A.setNX "k" "v" sec).norm ≠ (G.setNX "k" "v" sec).norm := by decide
 
-/-- GetEx with a non-zero expiration -/
-theorem getEx_same_partial (k : String) (e : Int) (h : e ≠ 0) : (A.getEx k e).norm = (G.getEx k e).norm := by
+/-- GetEx for every expiration: positive (PX/EX), zero (PERSIST), negative (plain) -/
+theorem getEx_same (k : String) (e : Int) : (A.getEx k e).norm = (G.getEx k e).norm := by
   simp only [A.getEx, G.getEx, Out.norm, Out.argv.injEq]
   apply normalize_congr rfl
   split
   · exact ttl_same e
-  · have : (e == 0) = false := by simpa using h
-    simp [this]
+  · split <;> rfl
 
-/-- FINDING: `GetEx(key, 0)` — go-redis sends `GETEX key PERSIST` (a zero expiration removes the TTL),
-    the adapter sends plain `GETEX key` and leaves the TTL in place -/
-theorem getEx_zero_differs (k : String) : (A.getEx k 0).norm ≠ (G.getEx k 0).norm := by
-  simp [A.getEx, G.getEx, Out.norm, normalize, normTok]
+/-- the divergence repaired by `fix: GetEx with a zero expiration sends GETEX key PERSIST` -/
+theorem getEx_old_zero_differed (k : String) : (A.getExOld k 0).norm ≠ (G.getEx k 0).norm := by
+  simp [A.getExOld, G.getEx, Out.norm, normalize, normTok]
 
 theorem expire_same (k : String) (d : Int) (mode : String) : (A.expire k d mode).norm = (G.expire k d mode).norm := by
   simp only [A.expire, G.expire, Out.norm, Out.argv.injEq]
@@ -197,18 +195,17 @@ theorem keyScan_same (name k : String) (c : Int) (m : String) (n : Int) :
   simp only [A.keyScan, G.keyScan, Out.norm, Out.argv.injEq]
   exact normalize_congr rfl (scanTail_same m n)
 
-/-- ScanType with a non-empty type -/
-theorem scanType_same_partial (c : Int) (m : String) (n : Int) (ty : String) (h : ty ≠ "") :
+/-- ScanType for every argument, including an empty type (TYPE omitted by both) -/
+theorem scanType_same (c : Int) (m : String) (n : Int) (ty : String) :
     (A.scanType c m n ty).norm = (G.scanType c m n ty).norm := by
   simp only [A.scanType, G.scanType, Out.norm, Out.argv.injEq]
-  have : (ty != "") = true := by simpa using h
-  simp only [this, if_true]
-  exact normalize_congr (normalize_congr rfl (scanTail_same m n)) rfl
+  apply normalize_congr (normalize_congr rfl (scanTail_same m n))
+  split <;> rfl
 
-/-- FINDING: `ScanType(cursor, match, count, "")` — go-redis omits TYPE, the adapter sends `TYPE ""` -/
-theorem scanType_empty_differs (c : Int) (m : String) (n : Int) :
-    (A.scanType c m n "").norm ≠ (G.scanType c m n "").norm := by
-  simp only [A.scanType, G.scanType, Out.norm, ne_eq, Out.argv.injEq]
+/-- the divergence repaired by `fix: ScanType omits TYPE when keyType is empty` -/
+theorem scanType_old_empty_differed (c : Int) (m : String) (n : Int) :
+    (A.scanTypeOld c m n "").norm ≠ (G.scanType c m n "").norm := by
+  simp only [A.scanTypeOld, G.scanType, Out.norm, ne_eq, Out.argv.injEq]
   intro h
   have := congrArg List.length h
   simp [normalize] at this
